@@ -403,6 +403,36 @@ impl Prop for C03 {
             }
             return ex;
         }
+        // long data piling up beyond the advertised max_allowed_packet (64 MiB) on one parameter: a
+        // server may end the connection over it; then nothing malformed and nothing for the chunks
+        // may have been sent
+        let over_limit = {
+            let mut pending: std::collections::HashMap<(u32, u16), usize> = Default::default();
+            let mut over = false;
+            for sc in &c.cmds {
+                match &sc.cmd {
+                    Cmd::LongData { id, param, data } => {
+                        let e = pending.entry((*id, *param)).or_insert(0);
+                        *e += data.len();
+                        over |= *e > (1 << 26);
+                    }
+                    Cmd::Execute { id, .. } | Cmd::Close { id } => pending.retain(|(s, _), _| s != id),
+                    _ => {}
+                }
+            }
+            over
+        };
+        if over_limit && o.result.is_err() {
+            ex.class("over-limit-long-data-ended-the-connection");
+            let d = decode_output(&o.out, &kinds);
+            if d.problem.is_some() && !d.truncated_only {
+                ex.fail("c03-nonconformant", format!("client decoder rejects the server's output: {:?}", d.problem));
+            }
+            if d.stray_msgs != 0 {
+                ex.fail("c03-stray-packets", format!("{} packets that answer no command", d.stray_msgs));
+            }
+            return ex;
+        }
         if !o.result.is_ok() {
             ex.fail("c03-run-result", format!("run_on returned {} for a conversation whose writer calls all report success", o.result.brief()));
             if o.result.is_panic() {
